@@ -539,4 +539,14 @@ def create (p : Params) (groups : List (String × List (Bool × List Nat))) : Sl
     else if groups.isEmpty then [mk "" []] else groups.map fun (n, al) => mk n al
   { p := p, now := 0, conns := (List.range p.nSlots).map fun _ => {}, groups := gs }
 
+/-- `CS104_Slave_stopThreadless` followed by `CS104_Slave_startThreadless`: every connection is dropped without an
+event (`CS104_Slave_closeAllConnections`: slot freed, socket destroyed, state STOPPED, counter zeroed; nothing else
+of the connection object is touched); the single-group queues and the per-connection queues are created afresh,
+the queues of configured redundancy groups are kept -/
+def restart (s : Slave) : Slave :=
+  let conns := s.conns.map fun c => if c.isUsed then { c with isUsed := false, state := 0 } else c
+  let groups := if s.p.mode = 2 then s.groups
+    else s.groups.map fun g => { g with lowQ := MsgQueue.create s.p.lowQ, highQ := HpQueue.create s.p.highQ }
+  { s with conns := conns, groups := groups, openConnections := 0 }
+
 end Iec.Srv104
